@@ -29,7 +29,7 @@ demo_dst = os.path.join(wt, pkgdir, 'zz_seed_demo_%s_test.go' % name)
 testname = re.search(r'func (Test\w+)\(', src).group(1)
 
 def sh(cmd, cwd, timeout=1800):
-    p = subprocess.run(cmd, shell=True, cwd=cwd, env=env, capture_output=True, text=True, timeout=timeout)
+    p = subprocess.run(cmd, shell=True, cwd=cwd, env=env, capture_output=True, text=True, errors='replace', timeout=timeout)
     return p.returncode, (p.stdout + p.stderr)[-1500:]
 
 def demo_run():
